@@ -116,7 +116,7 @@ void mon_truthful(const Run& run, const Ix& ix, Verdicts& v, vu::Result& res) {
             for (int bi : ix.cpkt_acks[ci]) {
                 auto& b = h.bpkts[bi];
                 if (b.pkt.type != want_type) continue;
-                if (b.kind == BKind::spurious) continue;
+                if (b.kind == BKind::spurious || b.kind == BKind::hostile) continue;   // forged, wrong count, inadmissible code
                 if (!b.wellformed) continue;
                 if (fail_rec && b.pkt.rc < 0x80) continue;
                 if (b.conn != k.conn) continue;
@@ -139,9 +139,11 @@ void mon_truthful(const Run& run, const Ix& ix, Verdicts& v, vu::Result& res) {
         } else for (int ci : reqs) consider(ci, o.kind == OpKind::sub ? ref::SUBACK : ref::UNSUBACK, false);
         if (cands.empty()) {
             // tell apart: completed on a spurious / foreign acknowledgement vs no acknowledgement at all
-            bool spurious_seen = false;
+            bool spurious_seen = false, hostile_seen = false;
             for (auto& b : h.bpkts) if (b.kind == BKind::spurious && b.delivered_t >= 0 && b.delivered_seq < o.seq_done) spurious_seen = true;
-            v.add(P, std::string(P) + (spurious_seen ? ":success-on-spurious-ack" : ":success-without-genuine-ack"),
+            for (int ci : reqs) for (int bi : ix.cpkt_acks[ci]) if (h.bpkts[bi].kind == BKind::hostile && h.bpkts[bi].delivered_t >= 0 && h.bpkts[bi].delivered_seq < o.seq_done) hostile_seen = true;
+            if (o.kind == OpKind::pub2) for (int ci : ix.op_rels[o.id]) for (int bi : ix.cpkt_acks[ci]) if (h.bpkts[bi].kind == BKind::hostile && h.bpkts[bi].delivered_t >= 0 && h.bpkts[bi].delivered_seq < o.seq_done) hostile_seen = true;
+            v.add(P, std::string(P) + (hostile_seen ? ":success-on-inadmissible-ack" : spurious_seen ? ":success-on-spurious-ack" : ":success-without-genuine-ack"),
                   op_str(o) + " completed successfully although no genuine final acknowledgement for its packet id had been delivered");
             continue;
         }
